@@ -1,6 +1,7 @@
 package props
 
 import (
+	"math"
 	"fmt"
 	"github.com/vedadiyan/genql"
 	"strings"
@@ -28,7 +29,7 @@ func init() {
 			"LIKE patterns contain no backslash; non-ASCII characters in data are caseless, so ASCII folding is the case-insensitivity asserted",
 			"numeric literals are rendered without exponent; the reference model (internal/ref) is trusted",
 		},
-		Floor:         featList("op.eq", "op.ne", "op.lt", "op.le", "op.gt", "op.ge", "and", "or", "not", "in", "notin", "in.subquery", "between", "notbetween", "like", "notlike", "isnull", "isnotnull", "istrue", "isfalse", "law.partition", "law.notin", "law.between", "native-int", "in.subquery.correlated", "naming.alias", "naming.alias-unqualified", "naming.table-qualified", "const.spelled", "opt.idiomatic-arrays", "source.dual", "table.long", "reexec.vars", "reexec.document", "column.nonword", "in.subquery.topn", "const.int64-edge", "opt.pg", "naming.table-qualified.path"),
+		Floor:         featList("op.eq", "op.ne", "op.lt", "op.le", "op.gt", "op.ge", "and", "or", "not", "in", "notin", "in.subquery", "between", "notbetween", "like", "notlike", "isnull", "isnotnull", "istrue", "isfalse", "law.partition", "law.notin", "law.between", "native-int", "in.subquery.correlated", "naming.alias", "naming.alias-unqualified", "naming.table-qualified", "const.spelled", "opt.idiomatic-arrays", "source.dual", "table.long", "reexec.vars", "reexec.document", "column.nonword", "in.subquery.topn", "const.int64-edge", "opt.pg", "naming.table-qualified.path", "in.long-list", "between.timestamps"),
 		MinNontrivial: 50,
 		Phases: []fw.Phase{
 			{Name: "pred", N: func(t fw.Tier) int { return pick(t, 16000, 600000) }, Run: c01Pred},
@@ -172,6 +173,85 @@ func c01Twin(c *fw.Case, t *gen.Table, g *gen.PredGen, rest gen.Pred) (gen.Pred,
 	return p, map[float64]string{sp.v: sp.text}
 }
 
+// c01LongIn: a literal list of 16..40 constants over a column of whole numbers
+// from a million on (the column is handed over as native Go integers by the
+// caller): whatever a long list is turned into - a set, a sorted slice - its
+// members are the same numbers.
+func c01LongIn(c *fw.Case, t *gen.Table, g *gen.PredGen, rest gen.Pred) gen.Pred {
+	scale := gen.Pick(c.R, []float64{1e6, 1e6, 1e7, 12345678})
+	var pool []any
+	seen := map[float64]bool{}
+	for _, row := range t.Rows {
+		f, ok := row["n1"].(float64)
+		if !ok {
+			continue
+		}
+		f = math.Trunc(f) * scale
+		if f > 1e15 || f < -1e15 {
+			f = scale
+		}
+		row["n1"] = f
+		if !seen[f] {
+			seen[f] = true
+			pool = append(pool, f)
+		}
+	}
+	if len(pool) == 0 {
+		pool = []any{scale}
+	}
+	t.Pools["n1"] = pool
+	n := 16 + c.Intn(25)
+	items := make([]any, n)
+	for i := range items {
+		v := pool[c.Intn(len(pool))].(float64)
+		switch c.Intn(4) {
+		case 0:
+			v += scale
+		case 1:
+			v = float64(c.Intn(2000000))
+		}
+		items[i] = v
+	}
+	c.Feature("in.long-list")
+	var in gen.Pred = gen.In{Col: "n1", Items: items, Neg: c.Chance(0.4)}
+	switch c.Intn(4) {
+	case 0:
+		return gen.And{A: in, B: rest}
+	case 1:
+		return gen.Or{A: rest, B: in}
+	}
+	return in
+}
+
+var c01StampPool = []any{"2024-03-01T10:00:00Z", "2024-03-01T10:00:00.5Z", "2024-03-01T12:00:00+02:00", "2024-03-01T09:59:59-01:00", "2024-03-01T10:00:00+00:00",
+	"2024-03-01T10:00:01Z", "2024-03-01", "2024-03-01T03:00:00-07:00", "2024-02-29T23:30:00-02:00", "2024-03-01T10:00:00.25+00:30", "2024-03-01 10:00:00", "2023-12-31T23:59:60Z"}
+
+// c01Stamps: a string column of timestamps written in different ways (zones,
+// fractions): strings compare as strings, so BETWEEN agrees with >= and <=.
+func c01Stamps(c *fw.Case, t *gen.Table, g *gen.PredGen, rest gen.Pred) gen.Pred {
+	for _, row := range t.Rows {
+		if _, ok := row["s1"].(string); ok {
+			row["s1"] = gen.Pick(c.R, c01StampPool)
+		}
+	}
+	t.Pools["s1"] = c01StampPool
+	lo, hi := gen.Pick(c.R, c01StampPool).(string), gen.Pick(c.R, c01StampPool).(string)
+	if c.Chance(0.8) && lo > hi {
+		lo, hi = hi, lo
+	}
+	c.Feature("between.timestamps")
+	var b gen.Pred = gen.Between{Col: "s1", Lo: lo, Hi: hi, Neg: c.Chance(0.3)}
+	switch c.Intn(5) {
+	case 0:
+		return gen.And{A: b, B: rest}
+	case 1:
+		return gen.Or{A: rest, B: b}
+	case 2:
+		return gen.Cmp{L: gen.Operand{IsCol: true, Col: "s1"}, Op: gen.Pick(c.R, []string{"<", "<=", ">", ">=", "="}), R: gen.Operand{Lit: lo}}
+	}
+	return b
+}
+
 func c01Pred(c *fw.Case) {
 	t, other := c01Tables(c)
 	g := &gen.PredGen{R: c.R, T: t, Other: other, MaxDepth: pick(c.Tier, 4, 7), Correlate: true, TopN: true, HugeConsts: c.Idx%7 == 3 || c.Chance(0.15)}
@@ -204,6 +284,16 @@ func c01Pred(c *fw.Case) {
 		return
 	}
 	p := g.Gen()
+	longIn := false
+	if g.Force == "" && !pathMode {
+		switch {
+		case c.Idx%50 == 23 || c.Chance(0.03):
+			p = c01LongIn(c, t, g, p)
+			longIn = true
+		case c.Idx%50 == 27 || c.Chance(0.03):
+			p = c01Stamps(c, t, g, p)
+		}
+	}
 	var numText map[float64]string
 	if c.Idx%50 == 17 || (g.Force == "" && c.Chance(0.03)) {
 		p, numText = c01Twin(c, t, g, p)
@@ -257,13 +347,17 @@ func c01Pred(c *fw.Case) {
 		sql = strings.Replace(sql, " FROM t1 ", " FROM db.t1 ", 1)
 		feats = append(feats, "naming.table-qualified.path")
 	}
-	if c.Idx%7 == 3 || c.Chance(0.1) {
+	if c.Idx%7 == 3 || c.Chance(0.1) || longIn {
 		// one numeric column arrives as natively typed Go integers
 		rows, _ := doc["t1"].([]any)
 		if pathMode {
 			rows = doc["db"].(map[string]any)["t1"].([]any)
 		}
-		nativize(c, rows, gen.Pick(c.R, []string{"n1", "n2"}))
+		ncol := gen.Pick(c.R, []string{"n1", "n2"})
+		if longIn {
+			ncol = "n1"
+		}
+		nativize(c, rows, ncol)
 		feats = append(feats, "native-int")
 		if strings.Contains(sql, "92233720368547") || strings.Contains(sql, "18446744073709551616") || strings.Contains(sql, "10000000000000000000") {
 			feats = append(feats, "const.int64-edge")
